@@ -39,7 +39,9 @@ class LoadSpec(Spec):
     def requires(self, c, E):
         h = ghost_of(c, E['self'])
         idx = c.obj(h.index).f
-        return M.RI_chain(h.F, h.g, idx['dom'], idx['val'], h.pos.t)
+        return M.RI_chain(h.F, h.g, idx['dom'], idx['val'], h.pos.t) + [
+            ('readers-see-the-committed-image', z3.And(z3.Not(c.obj(h.pool).f['stale']),
+                                                       z3.Not(c.obj(h.file).f['dirty'])))]
 
     def definitions(self, c, E):
         h = ghost_of(c, E['self'])
@@ -104,6 +106,7 @@ class LoadBackImpl(Spec):
         back = E['back'].t
         return M.RI_chain(h.F, h.g, idx['dom'], idx['val'], h.pos.t)[-1:] + [
             ('file-is-committed-image', z3.And(fo['arr'] == main['arr'], fo['size'] == main['size'])),
+            ('no-unflushed-writes', z3.Not(main['dirty'])),
             ('back-is-record-or-zero', z3.Or(back == 0, z3.Select(h.g.vrec, back)))]
 
     def modifies(self, c, E):
